@@ -13,7 +13,8 @@ use std::collections::HashSet;
 use std::sync::atomic::{AtomicU64, Ordering};
 
 #[derive(Clone, Debug, Serialize, Deserialize)]
-pub enum LOp { Enc { input: u8, e: Option<u8>, p: Option<u8> }, Generate }
+pub enum LOp { Enc { input: u8, e: Option<u8>, p: Option<u8> }, Generate, /// encryption whose k-th flush / write is interrupted once (EINTR)
+    EncInterrupted { input: u8, side_flush: bool, k: u8 } }
 #[derive(Clone, Debug, Serialize, Deserialize)]
 pub struct LHistory { pub ops: Vec<LOp>, pub seed: u64 }
 
@@ -59,6 +60,14 @@ pub fn check_lib(h: &LHistory) -> CheckResult {
         if !seen_ops.insert(format!("{:?}", op)) { repeated = true; }
         match op {
             LOp::Generate => { let k = kc::PrivateKey::generate(); fresh(k.as_bytes().try_into().map_err(|_| "generated key is not 32 bytes")?, "generated private key", idx)?; }
+            LOp::EncInterrupted { input, side_flush, k } => {
+                let (s, r, plain, lens) = &inputs[*input as usize % 3];
+                let fault = crate::sio::Fault { side: if *side_flush { crate::sio::Side::Flush } else { crate::sio::Side::Write }, k: 1 + *k as usize % 8, kind: crate::sio::FKind::Interrupted };
+                let (res, sh) = kx::key_encrypt(plain, &RSched { gives: lens.clone(), then: 0 }, &WSched::all(), Some(fault), &s.sk, &s.pk, &r.pk, None, None);
+                if res.is_ok() { // completed in spite of the interruption: the file must be as good as any other
+                    let f = sh.sink.take(); let (payload, fk) = recover(&f, r)?; fresh(f[4..36].try_into().unwrap(), "ephemeral public key", idx)?; fresh(payload, "payload key", idx)?; fresh(fk, "file key", idx)?;
+                    let n = nonce_positions(&f, 132, &fk, &[])?; ensure!(n == lens.len().max(1), "after an interrupted {} the file has {} records for {} chunks", if *side_flush { "flush" } else { "write" }, n, lens.len().max(1)); }
+            }
             LOp::Enc { input, e, p } => {
                 let (s, r, plain, lens) = &inputs[*input as usize % 3];
                 let ek = e.map(|e| gen::key32(e as u64 % 3, "fixed-e")); let pk = p.map(|p| gen::key32(p as u64 % 3, "fixed-p"));
@@ -77,7 +86,7 @@ pub fn check_lib(h: &LHistory) -> CheckResult {
 }
 
 #[derive(Clone, Debug, Serialize, Deserialize)]
-pub enum COp { Enc, PassEnc, KeyGen, ChangePass, ChangePassSame }
+pub enum COp { Enc, PassEnc, KeyGen, ChangePass, ChangePassSame, KeyGenAppend }
 #[derive(Clone, Debug, Serialize, Deserialize)]
 pub struct CHistory { pub ops: Vec<COp> }
 pub fn check_cli(h: &CHistory) -> CheckResult {
@@ -96,6 +105,11 @@ pub fn check_cli(h: &CHistory) -> CheckResult {
                 let t = String::from_utf8(sb.read("g.txt").ok_or("no key file")?).map_err(|e| e.to_string())?; let kr = Keyring::new(&t).map_err(|e| e.to_string())?; let k = kr.get_key("k").ok_or("key missing")?;
                 let esk = k.private_key.as_ref().ok_or("no private key")?; let blob = kspec::base64_decode(esk.as_str()).ok_or("bad base64")?; fresh(&blob[4..36], "locked-key salt", idx)?;
                 let sk = Keyring::unlock_private_key(esk, b"pw").map_err(|_| "generated key does not unlock")?; fresh(sk.as_bytes(), "generated private key", idx)?; }
+            COp::KeyGenAppend => { // another key into the same file, same password: every entry has its own salt and private key
+                let name = format!("k{}", idx); let r = sb.cmd(&["key", "generate", "-o", "many.txt", "--env-pass"]).env("KESTREL_PASSWORD", "pw").stdin(In::Bytes(format!("{}\n", name).into_bytes())).run(); ensure!(r.code == Some(0), "key generate failed: {}", r.describe());
+                let t = String::from_utf8(sb.read("many.txt").ok_or("no key file")?).map_err(|e| e.to_string())?; let kr = Keyring::new(&t).map_err(|e| e.to_string())?; let k = kr.get_key(&name).ok_or("key missing")?;
+                let esk = k.private_key.as_ref().ok_or("no private key")?; let blob = kspec::base64_decode(esk.as_str()).ok_or("bad base64")?; fresh(&blob[4..36], "locked-key salt (key appended to an existing file)", idx)?;
+                let sk = Keyring::unlock_private_key(esk, b"pw").map_err(|_| "generated key does not unlock")?; fresh(sk.as_bytes(), "generated private key", idx)?; }
             COp::ChangePassSame => { let r = sb.cmd(&["key", "change-pass", &id.carol.esk, "--env-pass"]).env("KESTREL_PASSWORD", &id.carol.password).env("KESTREL_NEW_PASSWORD", &id.carol.password).run(); ensure!(r.code == Some(0), "change-pass failed: {}", r.describe());
                 let out = r.stdout_s(); let l = out.lines().find(|l| l.starts_with("PrivateKey = ")).ok_or("no key printed")?; let blob = kspec::base64_decode(l["PrivateKey = ".len()..].trim()).ok_or("bad base64")?;
                 ensure!(blob.len() == 84 && blob[4..36] != kspec::base64_decode(&id.carol.esk).unwrap()[4..36], "change-pass to the same password kept the old salt"); fresh(&blob[4..36], "change-pass salt", idx)?; }
@@ -110,9 +124,9 @@ pub fn check_cli(h: &CHistory) -> CheckResult {
 pub fn run(ctx: &Ctx) {
     set_rule("C07", "histories of 2..200 library operations over 3 fixed inputs - key_encrypt with ephemeral and/or payload key supplied or left to the implementation, PrivateKey::generate - with a high probability of repeating an earlier operation with identical inputs; shorter CLI histories of identical `encrypt`, `password encrypt`, `key generate`, `key change-pass` runs. Invariant over the history: the values the implementation drew itself (ephemeral public keys, payload keys and file keys recovered with the implementation's own noise_decrypt + hkdf_sha256, generated private keys recovered with its unlock, salts) are pairwise distinct, not all-zero, and equal to no supplied value; if only one of ephemeral/payload key is supplied the other is still fresh; within each file record i opens under nonce i and under no other nonce j < n; a pooled monobit count over all drawn values lies within 6 sigma of 1/2. Non-trivial = history with >= 2 operations with identical inputs; distinct by hash of the history");
     ctx.assume("testing shows absence of repetition and of gross bias, not unpredictability of the operating system's generator");
-    ctx.pbt("library_histories", ctx.n(2_000, 60_000), || (proptest::collection::vec(prop_oneof![6 => (0u8..3, proptest::option::of(0u8..3), proptest::option::of(0u8..3)).prop_map(|(input, e, p)| LOp::Enc { input, e, p }), 1 => Just(LOp::Generate)], 2..200), any::<u64>()).prop_map(|(ops, seed)| LHistory { ops, seed }), check_lib);
+    ctx.pbt("library_histories", ctx.n(2_000, 60_000), || (proptest::collection::vec(prop_oneof![6 => (0u8..3, proptest::option::of(0u8..3), proptest::option::of(0u8..3)).prop_map(|(input, e, p)| LOp::Enc { input, e, p }), 1 => Just(LOp::Generate), 1 => (0u8..3, any::<bool>(), any::<u8>()).prop_map(|(input, side_flush, k)| LOp::EncInterrupted { input, side_flush, k })], 2..200), any::<u64>()).prop_map(|(ops, seed)| LHistory { ops, seed }), check_lib);
     ctx.shrink_iters.store(20, std::sync::atomic::Ordering::Relaxed);
-    ctx.pbt("cli_histories", ctx.n(32, 600), || proptest::collection::vec(prop_oneof![3 => Just(COp::Enc), 2 => Just(COp::PassEnc), 2 => Just(COp::KeyGen), 2 => Just(COp::ChangePass), 1 => Just(COp::ChangePassSame)], 2..9).prop_map(|ops| CHistory { ops }), check_cli);
+    ctx.pbt("cli_histories", ctx.n(32, 600), || proptest::collection::vec(prop_oneof![3 => Just(COp::Enc), 2 => Just(COp::PassEnc), 2 => Just(COp::KeyGen), 2 => Just(COp::ChangePass), 1 => Just(COp::ChangePassSame), 2 => Just(COp::KeyGenAppend)], 2..9).prop_map(|ops| CHistory { ops }), check_cli);
     let (ones, bits) = (ONES.load(Ordering::Relaxed) as f64, BITS.load(Ordering::Relaxed) as f64);
     if bits > 0.0 && ctx.replay.is_none() {
         let z = (ones - bits / 2.0) / (bits / 4.0).sqrt();
